@@ -91,9 +91,12 @@ impl SocketRecv for ReqSocket {
                     let reply = peer.recv_queue.next().await;
                     drop(peer);
                     self.current_request = None;
-                    if !matches!(reply, Some(Ok(_))) {
-                        // The connection ended or can no longer be decoded: forget
-                        // the peer instead of rotating back to it.
+                    if !matches!(reply, Some(Ok(Message::Message(_)))) {
+                        // The connection ended, can no longer be decoded, or the peer
+                        // sent something that is not a reply at all: forget the peer
+                        // instead of rotating back to it. Its real reply, should it
+                        // still come, must not be taken for the answer to a later
+                        // request.
                         self.backend.peer_disconnected(&peer_id);
                     }
                     match reply {
